@@ -61,5 +61,7 @@ contract TryShapes {
             n++;
             { ++n; }
         }
+        ++n;
+        unchecked { n--; } --n;
     }
 }
